@@ -1544,10 +1544,10 @@ func (s *State) emit(kind string, args ...string) {
 	nn := s.run.fresh("ev.n", "Int")
 	s.assume(sEq(nn, "(+ "+n+" 1)"))
 	s.ghost["ev.n"] = nn
-	if strings.HasPrefix(kind, "call:") || strings.HasPrefix(kind, "callfn:") {
+	{
 		id := s.run.eng.strID(kind)
 		s.writeLeaf("ncall", []string{id}, "Int", "(+ "+sSel(s.comp("ncall", 1, "Int"), id)+" 1)")
-		if len(args) > 0 {
+		if len(args) > 0 && (strings.HasPrefix(kind, "call:") || strings.HasPrefix(kind, "callfn:")) {
 			s.writeLeaf("ncallr", []string{id, args[0]}, "Int", "(+ "+selN(s.comp("ncallr", 2, "Int"), []string{id, args[0]})+" 1)")
 		}
 	}
